@@ -345,6 +345,47 @@ def _same_on_disk(real, snap, named):
         real.get(rel) == data for rel, data in snap.items() if rel in named)
 
 
+def _same_content(a, b):
+    """Checkpoint contents equal; Python floats (learning rates re-read from the 5-digit history) within 1e-9."""
+    import torch
+
+    if isinstance(a, torch.Tensor) or isinstance(b, torch.Tensor):
+        return isinstance(a, torch.Tensor) and isinstance(b, torch.Tensor) and a.dtype == b.dtype \
+            and a.shape == b.shape and torch.equal(a, b)
+    if isinstance(a, dict):
+        return isinstance(b, dict) and list(a) == list(b) and all(_same_content(a[k], b[k]) for k in a)
+    if isinstance(a, (list, tuple)):
+        return isinstance(b, (list, tuple)) and len(a) == len(b) and all(_same_content(x, y) for x, y in zip(a, b))
+    if isinstance(a, float) and isinstance(b, float):
+        return G.same_float(a, b, 1e-9)
+    return a == b
+
+
+def _same_after_restart(got, want, named):
+    """Same files; the history byte for byte; checkpoints by content (a restarted run re-reads its learning rate
+    from the history file, which prints 5 significant digits: 0.0008 vs 0.0008000000000000003)."""
+    import io
+
+    import torch
+
+    if [x[:2] for x in TR.canonical(got, named)] != [x[:2] for x in TR.canonical(want, named)]:
+        return False
+    for rel, data in want.items():
+        if rel not in named or data is None:
+            continue
+        if rel == CSV:
+            if got.get(rel) != data:
+                return False
+        elif got.get(rel) != data:
+            try:
+                if not _same_content(torch.load(io.BytesIO(got[rel]), map_location="cpu"),
+                                     torch.load(io.BytesIO(data), map_location="cpu")):
+                    return False
+            except Exception:
+                return False
+    return True
+
+
 def _real_deaths(mon, T, scn, root, tracer, states, chosen, recs):
     """Replay the run; before update k fork one child per chosen state of that update, let it die at
     the state's event, compare what it left with the snapshot, restore, go on."""
@@ -678,7 +719,7 @@ def _case(case, mon, T, scn, tracer, base, problems):
             mon.check(pr.returncode == 0, "fresh-process-restart", what="continuation raised",
                       stderr=pr.stderr[-1500:], resumed_after=k)
             got = TR.read_tree(froot)
-            mon.check(_same_on_disk(got, recs[n]["tree"], named), "fresh-process-restart", resumed_after=k,
+            mon.check(_same_after_restart(got, recs[n]["tree"], named), "fresh-process-restart", resumed_after=k,
                       observed=sorted(r for r in got if not r.endswith("/")),
                       expected=sorted(r for r in recs[n]["tree"] if not r.endswith("/")))
         except subprocess.TimeoutExpired:
